@@ -164,7 +164,22 @@ pub fn spaces(tier: Tier, _seed: u64) -> Vec<Box<dyn Space>> {
     for (_, t) in crate::props::c03::wider_texts() {
         texts.push(format!("{}{}\n", pre, t));
     }
+    // the same statements laid out over several lines (a diagnostic's range is the range of a
+    // node however many lines the node spans), with LF and with CR LF
+    let mut multi: Vec<String> = Vec::new();
+    for s in crate::props::c13::other_sites() {
+        if !s.text.starts_with('@') && !s.text.contains("pragma") {
+            multi.push(format!("{}{}\né变 = nosuch_é;\n", pre, s.text.replace(' ', "\n    ")));
+            multi.push(format!("{}{}\r\n", pre, s.text.replace(' ', "\r\n\t")));
+        }
+    }
+    for (_, t) in crate::props::c03::wider_texts() {
+        if !t.starts_with('@') && !t.contains("pragma") && !t.contains('"') {
+            multi.push(format!("{}{}\n", pre, t.replace(' ', "\n  ")));
+        }
+    }
     v.push(crate::space::TextSpace::list("SEMA/rule-violations+wider", texts, 64, semantic_oracle));
+    v.push(crate::space::TextSpace::list("SEMA/rule-violations+wider/multi-line", multi, 64, semantic_oracle));
     v.push(crate::space::TextSpace::list("SEMA/scope-histories/unicode", scope_history_texts(3, if tier.is_thorough() { 4 } else { 3 }), 256, semantic_oracle));
     v.push(crate::space::TextSpace::list("SEMA/scope-histories/user", scope_history_texts(0, if tier.is_thorough() { 4 } else { 3 }), 256, semantic_oracle));
     v
